@@ -107,15 +107,6 @@ func verifH_C12_nsp_chain() {
 
 type verifPayload struct{ A int }
 
-// verifArgDecode builds the values the real decoder would hand to onEvent: a pointer to a fresh value per requested type.
-func verifArgDecode(types ...reflect.Type) ([]reflect.Value, error) {
-	out := make([]reflect.Value, len(types))
-	for i, t := range types {
-		out[i] = reflect.New(t)
-	}
-	return out, nil
-}
-
 // C12_event_mw: a per-socket event middleware registered through the real Use sees each incoming event's NAME and
 // arguments before the handler, for handler signatures whose first parameter is a string or not, with and without an
 // ack function; an event it rejects never reaches the handler, one it accepts reaches it exactly once.
